@@ -68,11 +68,30 @@ Proof. exact dec_indef_request_bound. Qed.
 Print Assumptions C06_cbor_allocation_bounded.
 
 (* the object unmarshaller: linearly many steps (for atlases whose token-free chains through transform
-   wires and tags end within d visits — a cyclic chain genuinely diverges, see unmarshal_total_ranked_refuted) ... *)
+   wires and tags end within d visits — a cyclic chain genuinely diverges, see unmarshal_total_ranked_refuted
+   and unmarshal_total_wires_needs_own_type) ... *)
 Theorem C06_unmarshal_steps_linear : forall E A d, uranked A d = true ->
   forall f t cur ts, ((3 * d + 5) + (3 * d + 6) * length ts <= f)%nat ->
   unmarshal E A f t cur ts <> UFuel.
 Proof. exact unmarshal_total. Qed.
+(* ... the same under the weaker (exact) hypothesis that follows the token's tag along the chain: a transform
+   hands the token to its wire type without the transform's own tag (fix of D20), so a tagged transform whose
+   serial form is interface{} no longer cycles ... *)
+Theorem C06_unmarshal_steps_linear_chains : forall E A d, cranked A d = true ->
+  forall f t cur ts, ((3 * d + 5) + (3 * d + 6) * length ts <= f)%nat ->
+  unmarshal E A f t cur ts <> UFuel.
+Proof. exact unmarshal_total_chains. Qed.
+(* ... in particular under "no cyclic chain through transform wires" for atlases as atlas.Build accepts them
+   (one entry per type: the entry found for a tagged entry's type carries its tag) ... *)
+Theorem C06_unmarshal_steps_linear_acyclic_wires : forall E A d, wires_ranked A d = true -> tags_own_type A = true ->
+  forall f t cur ts, ((6 * d + 11) + (6 * d + 12) * length ts <= f)%nat ->
+  unmarshal E A f t cur ts <> UFuel.
+Proof. exact unmarshal_total_wires. Qed.
+(* ... and the driver with its actual budget 64 + 16 * tokens never runs out, whatever the input length,
+   when those chains end within 3 visits *)
+Theorem C06_unmarshal_top_never_out_of_fuel : forall E A t ts, cranked A 3 = true -> unmarshal_top E A t ts <> UTFuel.
+Proof. exact unmarshal_top_total. Qed.
+Print Assumptions C06_unmarshal_top_never_out_of_fuel.
 (* ... and the value it builds is no larger than the tokens it consumed: slices and maps grow per received
    element; a declared length never sizes anything (dsize counts payload bytes, slice elements and map entries;
    storage fixed by the target TYPE — array slots, struct fields — is not input-controlled and counts 0) *)
